@@ -23,14 +23,14 @@ Definition label_ok (s : rstate) (l : label) : Prop :=
   | _ => True
   end.
 
-Definition rinv (s : rstate) : Prop :=
+Definition rinv (s0 : Z) (s : rstate) : Prop :=
   0 <= r_version s
   /\ Forall (fun it => fst it <= r_version s) (r_queue s)
   /\ Forall (fun vg => 1 <= fst vg <= r_version s) (r_gens s)
-  /\ (r_version s = 0 -> r_delivered s = [])
+  /\ (r_version s = 0 -> r_delivered s = [] /\ r_queue s = [])
   /\ (r_version s <> 0 ->
       exists g, find_gen (r_version s) (r_gens s) = Some g
-                /\ gen_inv log g (r_delivered s ++ cur_msgs (r_version s) (r_queue s))).
+                /\ gen_inv log s0 g (r_delivered s ++ cur_msgs (r_version s) (r_queue s))).
 
 Lemma cur_msgs_old v q : Forall (fun it => fst it <= v - 1) q -> cur_msgs v q = [].
 Proof.
@@ -86,12 +86,14 @@ Proof.
   destruct (v' =? v); constructor; auto.
 Qed.
 
-Lemma rinv_init : rinv r_init.
+Lemma rinv_init s0 : rinv s0 r_init.
 Proof.
-  unfold rinv, r_init. cbn. repeat split; try lia; try constructor. intros H. contradiction.
+  unfold rinv, r_init. cbn [r_version r_queue r_gens r_delivered].
+  split; [lia|]. split; [constructor|]. split; [constructor|]. split; [split; reflexivity|].
+  intros H. exfalso. apply H. reflexivity.
 Qed.
 
-Lemma rinv_start s : rinv s -> rinv (r_start s).
+Lemma rinv_start s0 s : rinv s0 s -> rinv (r_offset s) (r_start s).
 Proof.
   intros (Hv & HQ & HG & HD & HC). unfold rinv, r_start. cbn [r_version r_queue r_gens r_delivered].
   split; [lia|]. split.
@@ -102,17 +104,25 @@ Proof.
   exists (gen_start (r_offset s)). split.
   - cbn [find_gen]. rewrite Z.eqb_refl. reflexivity.
   - cbn [app]. rewrite cur_msgs_old.
-    + apply gen_start_inv.
+    + apply (gen_start_inv run).
     + eapply Forall_impl; [|exact HQ]. cbn. intros. lia.
 Qed.
 
-Theorem r_step_inv s l s' ret :
-  rinv s -> label_ok s l -> r_step run cfg s l = RState s' ret -> rinv s'.
+(* ghost: the offset the current generation was started at *)
+Definition next_start (s : rstate) (s0 : Z) (l : label) : Z :=
+  match l with
+  | LBegin => if r_version s =? 0 then r_offset s else s0
+  | LSetOffset o => if o =? r_offset s then s0 else if r_version s =? 0 then s0 else o
+  | _ => s0
+  end.
+
+Theorem r_step_inv s0 s l s' ret :
+  rinv s0 s -> label_ok s l -> r_step run cfg s l = RState s' ret -> rinv (next_start s s0 l) s'.
 Proof.
   intros Hinv Hlab Hstep. pose proof Hinv as (Hv & HQ & HG & HD & HC).
-  destruct l as [| |o|v ev k]; cbn [r_step] in Hstep.
+  destruct l as [| |o|v ev k]; cbn [r_step next_start] in Hstep |- *.
   - (* LBegin *)
-    destruct (r_version s =? 0); injection Hstep as <- <-; [apply rinv_start|]; exact Hinv.
+    destruct (r_version s =? 0); injection Hstep as <- <-; [apply (rinv_start s0)|]; exact Hinv.
   - (* LTake *)
     destruct (r_queue s) as [|[v item] q] eqn:Eq; [discriminate|].
     apply Forall_cons_iff in HQ as [HQ1 HQ2]. cbn [fst] in HQ1.
@@ -121,27 +131,25 @@ Proof.
       destruct item as [g hwm|e]; injection Hstep as <- <-; unfold rinv;
         cbn [r_version r_queue r_gens r_delivered]; (split; [exact Hv|]); (split; [exact HQ2|]);
         (split; [exact HG|]).
-      * split; [intros H0; exfalso|].
-        { destruct (Z.eq_dec (r_version s) 0) as [E0|E0]; [|contradiction].
-          (* version 0: the queue holds nothing of version >= 0 ... the head has version 0 *)
-          clear -HG HC E0 H0 HD. lia. }
+      * split; [intros H0; exfalso; destruct (HD H0) as [_ Hq0]; discriminate Hq0|].
         intros Hn. destruct (HC Hn) as (g0 & Hf & Hg). exists g0. split; [exact Hf|].
         cbn [cur_msgs flat_map] in Hg. unfold item_msgs at 1 in Hg. cbn [fst snd] in Hg.
         rewrite Z.eqb_refl in Hg. rewrite <- app_assoc. exact Hg.
-      * split; [exact HD|].
+      * split; [intros H0; exfalso; destruct (HD H0) as [_ Hq0]; discriminate Hq0|].
         intros Hn. destruct (HC Hn) as (g0 & Hf & Hg). exists g0. split; [exact Hf|].
         cbn [cur_msgs flat_map] in Hg. unfold item_msgs at 1 in Hg. cbn [fst snd] in Hg.
         rewrite Z.eqb_refl in Hg. exact Hg.
     + injection Hstep as <- <-. unfold rinv. cbn [r_version r_queue r_gens r_delivered].
-      split; [exact Hv|]. split; [exact HQ2|]. split; [exact HG|]. split; [exact HD|].
+      split; [exact Hv|]. split; [exact HQ2|]. split; [exact HG|].
+      split; [intros H0; exfalso; destruct (HD H0) as [_ Hq0]; discriminate Hq0|].
       intros Hn. destruct (HC Hn) as (g0 & Hf & Hg). exists g0. split; [exact Hf|].
       cbn [cur_msgs flat_map] in Hg. unfold item_msgs at 1 in Hg. cbn [fst] in Hg.
       replace (v =? r_version s) with false in Hg by lia. exact Hg.
   - (* LSetOffset *)
     destruct (o =? r_offset s); [injection Hstep as <- <-; exact Hinv|].
-    assert (H1 : rinv (mkR (r_version s) o (r_queue s) (r_gens s) (r_delivered s))) by exact Hinv.
+    assert (H1 : rinv s0 (mkR (r_version s) o (r_queue s) (r_gens s) (r_delivered s))) by exact Hinv.
     destruct (r_version s =? 0); injection Hstep as <- <-; [exact H1|].
-    apply (rinv_start _ H1).
+    apply (rinv_start s0 _ H1).
   - (* LGen *)
     destruct (find_gen v (r_gens s)) as [g|] eqn:Ef; [|discriminate].
     destruct (gen_step run cfg g ev) as [[g' outs]|] eqn:Es; [|discriminate].
@@ -154,7 +162,7 @@ Proof.
     { apply Forall_app. split; [exact HQ|]. apply Forall_forall. intros it Hit.
       apply in_map_iff in Hit as (o & <- & _). cbn [fst]. lia. }
     split; [apply (set_gen_keys v _ _ (fun x => 1 <= x <= r_version s)); exact HG|].
-    split; [exact HD|].
+    split; [intros H0; exfalso; lia|].
     intros Hn. destruct (HC Hn) as (g0 & Hf & Hg).
     destruct (Z.eq_dec v (r_version s)) as [Evv|Evv].
     + subst v. rewrite Ef in Hf. injection Hf as <-.
@@ -162,34 +170,63 @@ Proof.
       rewrite Hk. rewrite firstn_all2 by (apply Nat.ltb_ge in Hk; exact Hk).
       exists g'. split; [apply (find_set_same _ _ _ _ Ef)|].
       rewrite cur_msgs_app, cur_msgs_same, app_assoc.
-      apply (gen_step_inv run cfg log log_sorted g ev); [exact Hg| |exact Es].
+      apply (gen_step_inv run cfg log log_sorted s0 g ev); [exact Hg| |exact Es].
       apply (Hlab eq_refl g Ef).
     + exists g0. split; [rewrite find_set_other by lia; exact Hf|].
       rewrite cur_msgs_app, cur_msgs_other by lia. rewrite app_nil_r. exact Hg.
 Qed.
 
 (* a run of the Reader *)
-Inductive reach : rstate -> Prop :=
-| reach_init : reach r_init
-| reach_step s l s' ret : reach s -> label_ok s l -> r_step run cfg s l = RState s' ret -> reach s'.
+(* reach s s0: s is reachable; s0 = the offset the current generation was started at *)
+Inductive reach : rstate -> Z -> Prop :=
+| reach_init : reach r_init FirstOffset
+| reach_step s s0 l s' ret :
+    reach s s0 -> label_ok s l -> r_step run cfg s l = RState s' ret -> reach s' (next_start s s0 l).
 
-Lemma reach_inv s : reach s -> rinv s.
+Lemma reach_inv s s0 : reach s s0 -> rinv s0 s.
 Proof.
-  induction 1 as [|s l s' ret _ IH Hl Hs]; [apply rinv_init|]. apply (r_step_inv s l s' ret IH Hl Hs).
+  induction 1 as [|s s0 l s' ret _ IH Hl Hs]; [apply rinv_init|]. apply (r_step_inv s0 s l s' ret IH Hl Hs).
 Qed.
 
 (* C02_delivery_exact: what FetchMessage returned since the last (re)start is a prefix of the
    stored records from some position a on: increasing, no gap, no duplicate, fields as stored *)
-Theorem delivery_exact s :
-  reach s -> exists a rest, mm (from a log) = r_delivered s ++ rest.
+Theorem delivery_exact s s0 :
+  reach s s0 -> exists a rest, mm (from a log) = r_delivered s ++ rest.
 Proof.
-  intros Hr. destruct (reach_inv s Hr) as (Hv & HQ & HG & HD & HC).
+  intros Hr. destruct (reach_inv s s0 Hr) as (Hv & HQ & HG & HD & HC).
   destruct (Z.eq_dec (r_version s) 0) as [E0|E0].
-  - rewrite (HD E0). exists 0, (mm (from 0 log)). reflexivity.
-  - destruct (HC E0) as (g & _ & (a & Hal & HE & _)).
+  - rewrite (proj1 (HD E0)). exists 0, (mm (from 0 log)). reflexivity.
+  - destruct (HC E0) as (g & _ & (a & _ & Hal & HE & _)).
     destruct (between_prefix_from 0 log a (g_offset g) log_sorted Hal) as [rest Hrest].
     exists a, (cur_msgs (r_version s) (r_queue s) ++ mm rest).
     rewrite app_assoc, HE, Hrest. unfold mm. apply map_app.
+Qed.
+
+(* C02_setoffset_next: the generation serving the calls made after SetOffset(o) returned was
+   started at o; what those calls return is a prefix of the stored records at or after o, so
+   the first message returned is the stored record with the least offset >= o *)
+Theorem delivery_from_start s s0 :
+  reach s s0 -> r_version s <> 0 -> 0 <= s0 -> exists rest, mm (from s0 log) = r_delivered s ++ rest.
+Proof.
+  intros Hr Hn H0. destruct (reach_inv s s0 Hr) as (Hv & HQ & HG & HD & HC).
+  destruct (HC Hn) as (g & _ & (a & Hs0 & Hal & HE & _)).
+  rewrite <- (Hs0 H0).
+  destruct (between_prefix_from 0 log a (g_offset g) log_sorted Hal) as [rest Hrest].
+  exists (cur_msgs (r_version s) (r_queue s) ++ mm rest).
+  rewrite app_assoc, HE, Hrest. unfold mm. apply map_app.
+Qed.
+
+Lemma setoffset_restarts s s0 o s' ret :
+  reach s s0 -> r_version s <> 0 -> o <> r_offset s ->
+  r_step run cfg s (LSetOffset o) = RState s' ret ->
+  reach s' o /\ r_delivered s' = [] /\ r_version s' = r_version s + 1.
+Proof.
+  intros Hr Hn Ho Hs.
+  pose proof (reach_step s s0 (LSetOffset o) s' ret Hr I Hs) as Hr'.
+  cbn [next_start r_step] in Hr', Hs.
+  replace (o =? r_offset s) with false in * by lia.
+  replace (r_version s =? 0) with false in * by lia.
+  injection Hs as <- <-. split; [exact Hr'|]. split; reflexivity.
 Qed.
 
 End LTS.
